@@ -1,12 +1,12 @@
 #!/bin/bash
 # Run every check of one tier sequentially; print the summary line of each.
 tier=${1:-quick}
-cd /verif
 rc=0
 for p in ${CHECKS:-C01 C02 C03 C04 C05 C06 C07 C08 C09 C10 C11 C12 C13 C14 C15 C16 C17 C18 C19 C20}; do
   s=$(date +%s)
-  out=$(./check $p --tier $tier 2>&1); e=$?
+  out=$(VERIF_DEBUG=1 timeout ${PER_CHECK_TIMEOUT:-3000} ./check $p --tier $tier 2>&1); e=$?
   echo "$p exit=$e $(( $(date +%s) - s ))s | $(echo "$out" | grep -c '^VIOLATION') violations | $(echo "$out" | tail -1 | cut -c1-170)"
+  echo "$out" | grep "slow shard" | head -3
   if [ $e -ne 0 ]; then rc=1; echo "$out" | grep -A3 '^VIOLATION\|HARNESS' | head -20; fi
 done
 exit $rc
